@@ -15,7 +15,7 @@
 
 """Types for the captured data."""
 
-import random
+import uuid
 from typing import Optional, Dict, List
 
 from deep.api.attributes import BoundedAttributes
@@ -36,7 +36,8 @@ class EventSnapshot:
         :param frames: the captured frames
         :param var_lookup: the captured variables.
         """
-        self._id = random.getrandbits(128)
+        # do not use the global random generator, the application can depend on its sequence (random.seed)
+        self._id = uuid.uuid4().int
         self._tracepoint = tracepoint
         self._var_lookup: Dict[str, 'Variable'] = var_lookup
         self._ts_nanos = ts
